@@ -50,7 +50,7 @@ Nil == 0
 \* ---- alphabets (selected from the cfg with  Alphabet <- AlphaXxx) ---------------------------------
 Blocks == {<<"if", "other">>, <<"else", "else">>, <<"try", "-">>, <<"except", "-">>, <<"with", "-">>}
 AlphaBind ==   \* tie-break, kinds, parents
-  {<<"def", "none">>, <<"class", "none">>, <<"assign", "plain">>, <<"assign", "annonly">>, <<"import", "from">>,
+  {<<"def", "none">>, <<"class", "none">>, <<"assign", "plain">>, <<"assign", "annonly">>, <<"import", "from">>, <<"import", "multi">>,
    <<"init", "-">>, <<"assign", "self">>} \cup Blocks
 AlphaCond ==   \* the tie-break under conditions: one name, longer programs
   {<<"assign", "plain">>, <<"def", "none">>, <<"import", "from">>, <<"if", "other">>, <<"else", "else">>, <<"try", "-">>, <<"except", "-">>, <<"with", "-">>}
@@ -66,7 +66,7 @@ AlphaDeco ==   \* decorators -> kinds and labels, overload stash, accessors
    <<"def", "overload">>, <<"def", "setter">>, <<"class", "none">>, <<"class", "deco">>, <<"init", "-">>, <<"assign", "plain">>}
 AlphaImp ==    \* import map, alias naming, __all__
   {<<"import", "mod">>, <<"import", "dotted">>, <<"import", "as">>, <<"import", "from">>, <<"import", "fromas">>,
-   <<"import", "star">>, <<"all", "empty">>, <<"all", "one">>, <<"all", "two">>, <<"all", "aug">>,
+   <<"import", "star">>, <<"import", "multi">>, <<"import", "frommulti">>, <<"all", "empty">>, <<"all", "one">>, <<"all", "two">>, <<"all", "aug">>,
    <<"def", "none">>, <<"class", "none">>, <<"assign", "plain">>, <<"if", "other">>, <<"else", "else">>, <<"try", "-">>, <<"except", "-">>}
 AlphaAttr ==   \* attribute variants: annotations, ClassVar, instance attributes, multiple targets, dotted targets
   {<<"assign", "plain">>, <<"assign", "ann">>, <<"assign", "annonly">>, <<"assign", "classvar">>, <<"assign", "multi">>,
@@ -95,14 +95,15 @@ QuickDomains ==
    Dom("guard", AlphaGuard, 3, 2, {"f"}),
    Dom("guard-deep", AlphaGuardDeep \ {<<"with", "-">>, <<"else", "elif">>}, 4, 2, {"f"}),
    Dom("deco", AlphaDeco \ {<<"def", "classmethod">>, <<"def", "cache">>, <<"def", "propabstract">>, <<"def", "asyncabstract">>, <<"def", "asynccache">>}, 3, 2, {"f"}),
-   Dom("imp", AlphaImp \ {<<"class", "none">>, <<"try", "-">>, <<"except", "-">>}, 3, 2, {"f"}),
+   Dom("imp", AlphaImp \ {<<"class", "none">>, <<"try", "-">>, <<"except", "-">>, <<"import", "multi">>, <<"import", "frommulti">>}, 3, 2, {"f"}),
    Dom("attr", AlphaAttr \ {<<"assign", "classvar">>, <<"assign", "selfann">>}, 3, 2, {"f", "g"}),
    DomP("inst", InInit, AlphaInst \ {<<"class", "none">>, <<"init", "-">>}, 5, 3, {"f"}),
    DomP("inst2", InInitAfterClassAttr, AlphaInst \ {<<"class", "none">>, <<"init", "-">>}, 6, 3, {"f"}),
    DomP("instnm", InInit, AlphaNoMember, 5, 3, {"f"})}
 ThoroughDomainsA ==
   {Dom("all", AlphaAll, 2, 1, {"f", "g"}), Dom("deco", AlphaDeco, 3, 2, {"f", "g"}), Dom("bind", AlphaBind, 4, 2, {"f", "g"}),
-   Dom("cond", AlphaCond \ {<<"with", "-">>, <<"import", "from">>}, 5, 2, {"f"}), Dom("imp", AlphaImp, 4, 2, {"f"})}
+   Dom("cond", AlphaCond \ {<<"with", "-">>, <<"import", "from">>}, 5, 2, {"f"}), Dom("imp", AlphaImp \ {<<"import", "multi">>, <<"import", "frommulti">>}, 4, 2, {"f"}),
+   Dom("imp2", AlphaImp, 3, 2, {"f", "g"})}
 ThoroughDomainsB ==
   {Dom("guard-deep", AlphaGuardDeep \ {<<"with", "-">>, <<"else", "elif">>}, 5, 3, {"f"}), Dom("guard", AlphaGuard, 4, 2, {"f"}),
    Dom("attr", AlphaAttr \ {<<"assign", "classvar">>, <<"assign", "selfann">>}, 4, 2, {"f", "g"}), Dom("attr3", AlphaAttr, 3, 2, {"f", "g"}),
@@ -123,7 +124,9 @@ NameChoices(k, x) ==
 
 Lines == UNION {{[k |-> a[1], x |-> a[2], n |-> n, d |-> d] : n \in NameChoices(a[1], a[2]), d \in 0..dom.depth} : a \in dom.alpha}
 
-UsedNames(l) == IF l.k = "assign" /\ l.x = "multi" THEN {l.n, Other(l.n)} ELSE {l.n}
+\* statements binding two names at once:  n = other = v ;  import n, other ;  from zz import n, other
+Multi(l) == (l.k = "assign" /\ l.x = "multi") \/ (l.k = "import" /\ l.x \in {"multi", "frommulti"})
+UsedNames(l) == IF Multi(l) THEN {l.n, Other(l.n)} ELSE {l.n}
 Opener(l) == l.k \in {"class", "init", "if", "else", "try", "except", "with"}
 SelfAssign(l) == l.k = "assign" /\ l.x \in {"self", "selfann"}
 \* assignment targets that create no member: obj.n, self.o.n, self.o.p.n (dotted names), self.n[0], (n, n2) (unsupported nodes)
@@ -177,7 +180,8 @@ DecoU == {"async", "property", "cached", "staticmethod", "classmethod", "abstrac
 ImpPath(x, n) ==
   CASE x = "mod" -> <<n>>                [] x = "dotted" -> <<n>>           \* import n / import n.sub   -> n
     [] x = "as" -> <<"zz", "sub">>       [] x = "from" -> <<"zz", n>>       \* import zz.sub as n / from zz import n
-    [] x = "fromas" -> <<"zz", "orig">>  [] OTHER -> <<"zz">>               \* from zz import orig as n / from zz import *
+    [] x = "fromas" -> <<"zz", "orig">>  [] x = "star" -> <<"zz">>          \* from zz import orig as n / from zz import *
+    [] x = "multi" -> <<n>>              [] OTHER -> <<"zz", n>>            \* import n, other / from zz import n, other  (per name)
 ExportList(x) == CASE x = "empty" -> <<>> [] x = "one" -> <<"f">> [] x = "two" -> <<"f", "g">> [] OTHER -> <<"g">>
 AttrLabels(scopeKind, x) ==
   IF scopeKind = "module" THEN {"module-attribute"}
@@ -213,7 +217,7 @@ EvParent(l) == IF SelfAssign(prog[l]) /\ CurFrame.t = "init" THEN AttrParent0 EL
 Oid(l, second) == 2 * l + 1 + (IF second THEN 1 ELSE 0)
 Ev(e, l, n) ==   \* event about the object created at line l under the name n, announced while `current` is Cur
   [e |-> e, l |-> l, n |-> n,
-   o |-> Oid(l, IF l = 0 THEN FALSE ELSE prog[l].k = "assign" /\ prog[l].x = "multi" /\ n # prog[l].n),
+   o |-> Oid(l, IF l = 0 THEN FALSE ELSE Multi(prog[l]) /\ n # prog[l].n),
    p |-> IF l = 0 THEN NoObj ELSE IF e = "members" THEN NoObj ELSE Oid(EvParent(l), FALSE),
    c |-> IF l = 0 THEN TRUE ELSE prog[l].k = "class"]
 \* prev: the value of type_guarded saved by visit_if on entry (`previous`), meaningful for "if" frames
@@ -301,11 +305,17 @@ PlaceFunction ==
 VisitImport ==        \* visit_import / visit_importfrom: imports map (not for *), Alias member, on_alias
   /\ Observe
   /\ Visiting /\ Line.k = "import" /\ Advance
-  /\ imps' = IF Line.x = "star" THEN imps
-             ELSE {r \in imps : ~(r.s = Cur /\ r.n = Line.n)} \cup {[s |-> Cur, n |-> Line.n, p |-> ImpPath(Line.x, Line.n)]}
-  /\ tree' = SetMember(tree, Mem(Cur, Line.n, cursor, "alias", {}, ImpPath(Line.x, Line.n), <<>>))
-  /\ placed' = placed \cup {<<cursor, Line.n, Cur>>}
-  /\ events' = Append(events, Ev("alias", cursor, Line.n))
+  \* `for name in node.names:` - imports map, Alias, set_member and on_alias once per imported name, in order
+  /\ LET nm == IF Multi(Line) THEN <<Line.n, Other(Line.n)>> ELSE <<Line.n>>
+         One(acc, a) == [I |-> IF Line.x = "star" THEN acc.I
+                               ELSE {r \in acc.I : ~(r.s = Cur /\ r.n = a)} \cup {[s |-> Cur, n |-> a, p |-> ImpPath(Line.x, a)]},
+                         T |-> SetMember(acc.T, Mem(Cur, a, cursor, "alias", {}, ImpPath(Line.x, a), <<>>)),
+                         pl |-> acc.pl \cup {<<cursor, a, Cur>>},
+                         ev |-> Append(acc.ev, Ev("alias", cursor, a))]
+         a0 == [I |-> imps, T |-> tree, pl |-> placed, ev |-> events]
+         a1 == One(a0, nm[1])
+         a2 == IF Len(nm) = 2 THEN One(a1, nm[2]) ELSE a1
+     IN imps' = a2.I /\ tree' = a2.T /\ placed' = a2.pl /\ events' = a2.ev
   /\ UNCHANGED <<stack, guarded, exps, stash, outcome>>
 
 \* handle_attribute.  names: module/class -> get_names, __init__ -> get_instance_names (the `self.` targets),
@@ -390,7 +400,7 @@ Creates(i) ==      \* statements that bind a name to a new object of their own
   \/ P[i].k = "def" /\ P[i].x \notin {"overload", "setter"}
   \/ P[i].k = "assign" /\ P[i].x \notin NoMemberTargets
   \/ P[i].k = "all" /\ P[i].x # "aug"
-BindNames(i) == IF P[i].k = "assign" /\ P[i].x = "multi" THEN {P[i].n, Other(P[i].n)} ELSE {P[i].n}
+BindNames(i) == UsedNames(P[i])
 B(s, n) == {i \in 1..N : Creates(i) /\ n \in BindNames(i) /\ BindScope(i) = s}
 \* "conditional re-assignment": an assignment written directly in an if / elif / else branch or an except handler
 Cond(i) == IF Par(P, i) = 0 THEN FALSE ELSE P[Par(P, i)].k \in {"if", "else", "except"}
@@ -408,7 +418,7 @@ RefMember(s, n) ==
   LET i == Surv(s, n) IN
   [s |-> s, n |-> n, l |-> i, k |-> RefKind(i), rt |-> ~RefGuarded(i),
    dl |-> (IF P[i].k = "def" THEN DecoLab(P[i].x) ELSE {}) \cup (IF Setters(s, n, i) # {} THEN {"writable"} ELSE {}),
-   p |-> IF P[i].k = "import" THEN ImpPath(P[i].x, P[i].n) ELSE <<>>,
+   p |-> IF P[i].k = "import" THEN ImpPath(P[i].x, n) ELSE <<>>,
    chain |-> SortedSeq(Eff(s, n)), b |-> SortedSeq(B(s, n))]
 RefAll == {RefMember(t[1], t[2]) : t \in {u \in Scopes \X AllNames : B(u[1], u[2]) # {}}}
 \* the tree hangs from the module: members of a class that lost its name to a later binding are gone with it
@@ -417,7 +427,7 @@ Reach(T, fuel) == IF fuel = 0 THEN {m \in T : m.s = 0}
                   ELSE LET R == Reach(T, fuel - 1) IN {m \in T : m.s = 0 \/ \E c \in R : c.l = m.s /\ c.k \in {"class", "function"}}
 RefTree == Reach(RefAll, dom.depth + 1)
 LastImport(s, n) ==
-  LET S == {i \in 1..N : P[i].k = "import" /\ P[i].x # "star" /\ P[i].n = n /\ BindScope(i) = s} IN IF S = {} THEN 0 ELSE MaxOf(S)
+  LET S == {i \in 1..N : P[i].k = "import" /\ P[i].x # "star" /\ n \in BindNames(i) /\ BindScope(i) = s} IN IF S = {} THEN 0 ELSE MaxOf(S)
 RefImports ==
   {[s |-> t[1], n |-> t[2], l |-> LastImport(t[1], t[2]), p |-> ImpPath(P[LastImport(t[1], t[2])].x, t[2])] : t \in {u \in Scopes \X dom.names : LastImport(u[1], u[2]) # 0}}
 RECURSIVE Concat(_)
@@ -525,7 +535,11 @@ EvMembersLast == (Ok /\ Demand({"init-local"})) => \A c \in {o[3] : o \in placed
 \* the same clause as an acceptor (EventProtocol.tla), shared with the validation of real traces (VisitorTrace.tla)
 RECURSIVE Fold(_, _)
 Fold(st, evs) == IF evs = <<>> THEN st ELSE Fold(Step(st, Head(evs)), Tail(evs))
-EventsAccepted == (Ok /\ Demand({"init-local"})) => Final(Fold(Start, events)) = "ok"
+\* the recorded sequence is followed by one "intree" event per object hanging in the final tree (placed => announced)
+InTree == LET ids == {Oid(m.l, Multi(prog[m.l]) /\ m.n # prog[m.l].n) : m \in res.impl}
+              sq == SortedSeq(ids)
+          IN [q \in 1..Len(sq) |-> [e |-> "intree", o |-> sq[q], p |-> NoObj, c |-> FALSE]]
+EventsAccepted == (Ok /\ Demand({"init-local"})) => Final(Fold(Start, events \o InTree)) = "ok"
 
 Pack(l) == <<l.k, l.x, l.n, l.d>>
 EmitCase ==
